@@ -260,6 +260,11 @@ def scenarios_c05():
                 bb = alt[a]
             out.append(('%s:%s|%s:%s' % (a, ha, bb, hb),
                         {'A': writers[a](ha), 'B': writers[bb](hb)}))
+    # (known finding D22, reproduced on every run) two allocation writes for
+    # one not-yet-existing consumer on E, one carrying null, one carrying 0
+    out.append(('new consumer on E: claim null|claim 0', {
+        'A': put_alloc(K3, {E: {'VCPU': 1}}, 'null', 'pA'),
+        'B': put_alloc(K3, {E: {'VCPU': 2}}, 0, 'pB')}))
     # a reshape that lists a provider with the inventory it already has,
     # racing writers of that provider
     for wname in ('traits1', 'aggs1', 'invs1', 'inv'):
